@@ -81,7 +81,7 @@ def oracle_tree(c, io):
         return 'result %s is not the pointwise value %s' % (
             {str(tuple(map(str, k))): str(v) for k, v in got.items()}, {str(tuple(map(str, k))): str(v) for k, v in d.items()})
     if t['k'] in ('add', 'sub', 'mul', 'div', 'neg') and any(v == 0 for v in cs):
-        if not (len(cs) == 1 and all(x == 0 for x in rows[0])):
+        if len(cs) != 1:
             return 'explicit zero term in the result of arithmetic'
     ac = {tuple(F(x) for x in k): F(v) for k, v in io['alpha_c']}
     if ac != dict(zip(rows, cs)):
@@ -127,7 +127,7 @@ def gen_eq_pair(rng, n, poly):
             rows.append(r)
             cs.append(v)
     f = dict(f, alpha=rows, c=cs)
-    kind = rng.choice(['perm', 'zero_extra', 'perturb_small', 'perturb_big', 'different', 'shifted_support', 'tree'])
+    kind = rng.choice(['perm', 'zero_extra', 'perturb_small', 'perturb_mid', 'perturb_big', 'different', 'shifted_support', 'tree'])
     g = dict(f)
     idx = list(range(len(rows)))
     if kind == 'perm':
@@ -136,9 +136,11 @@ def gen_eq_pair(rng, n, poly):
     elif kind == 'zero_extra':
         new = [frac_str(F(rng.randint(4, 7))) for _ in range(n)]
         g = dict(f, alpha=rows + [new], c=cs + ['0'])
-    elif kind in ('perturb_small', 'perturb_big'):
+    elif kind in ('perturb_small', 'perturb_mid', 'perturb_big'):
         i = rng.randrange(len(rows))
-        eps = F(1, 2 ** 40) if kind == 'perturb_small' else F(1, 2 ** 16)
+        eps = {'perturb_small': F(1, 2 ** 40), 'perturb_mid': F(1, 2 ** 24), 'perturb_big': F(1, 2 ** 16)}[kind]
+        if kind == 'perturb_small' and rng.random() < 0.5:
+            eps = F(1, 2 ** 29)   # ~1.9e-9: still below the tolerance
         c2 = list(cs)
         c2[i] = frac_str(F(c2[i]) + eps)
         g = dict(f, c=c2)
@@ -197,6 +199,9 @@ def run(ctx):
         poly = rng.random() < 0.4
         t = st.gen_tree(rng, rng.randint(1, maxdepth), n, poly)
         if st.tree_size(t) > 60:
+            continue
+        if not st.exact_in_float(t):
+            ctx.incon('generator: tree not exact in float64 (discarded)')
             continue
         trees.append({'t': t})
     # every operand type pair: op x numeric type x side
